@@ -446,9 +446,16 @@ def astype(o, t):
     operation (truncation), modelled by uninterpreted functions so that no proof can silently rely on it being the identity"""
     integer = isinstance(t, str) and t.startswith(("int", "uint"))
     if not integer: return o
+    bits = int("".join(ch for ch in t if ch.isdigit()) or 32)
+    def narrow(x):
+        """int32 / int64 are treated as mathematical integers (stated assumption); a cast to an 8- or 16-bit type WRAPS and is modelled exactly"""
+        if bits >= 32: return x
+        m = 2 ** bits
+        if isinstance(x, int): return x % m if t.startswith("uint") else ((x + m // 2) % m) - m // 2
+        return (toz3(x) % m) if t.startswith("uint") else ((toz3(x) + m // 2) % m) - m // 2
     def el(x):
         if isinstance(x, bool) or (is_z3(x) and z3.is_bool(x)): return Ite(x, 1, 0) if is_z3(x) else int(x)
-        if isinstance(x, int) or (is_z3(x) and z3.is_int(x)): return x
+        if isinstance(x, int) or (is_z3(x) and z3.is_int(x)): return narrow(x)
         if isinstance(x, float): return int(x)
         if is_z3(x) and z3.is_real(x): return TRUNC(x)
         return x
